@@ -17,7 +17,8 @@ import (
 // Known is a point whose membership (KnownIn) is known from the construction
 // (never from the library): it anchors the exact parity containment oracle.
 type shapeCase struct {
-	// loop | polygon | polyline | laxloop | laxpolygon | laxpolyline | points
+	// loop | polygon | polyline | laxloop | laxpolygon | laxpolyline | points |
+	// fullpolygon | fulllax | emptypolygon (edge-less regions: Loops is empty)
 	Type    string
 	Loops   [][]gen.P
 	Known   gen.P
@@ -26,11 +27,14 @@ type shapeCase struct {
 
 func (s shapeCase) dim2() bool {
 	switch s.Type {
-	case "loop", "polygon", "laxloop", "laxpolygon":
+	case "loop", "polygon", "laxloop", "laxpolygon", "fullpolygon", "fulllax", "emptypolygon":
 		return true
 	}
 	return false
 }
+
+// full: an edge-less region that contains every point.
+func (s shapeCase) full() bool { return s.Type == "fullpolygon" || s.Type == "fulllax" }
 
 func (s shapeCase) numEdges() int {
 	n := 0
@@ -70,6 +74,12 @@ func (s shapeCase) build() s2.Shape {
 		return s2.LaxPolygonFromPoints(ls)
 	case "laxpolyline":
 		return s2.LaxPolylineFromPoints(gen.Pts(s.Loops[0]))
+	case "fullpolygon":
+		return s2.FullPolygon()
+	case "fulllax":
+		return s2.LaxPolygonFromPoints([][]s2.Point{{}})
+	case "emptypolygon":
+		return s2.PolygonFromLoops(nil)
 	case "points":
 		var pts []s2.Point
 		if len(s.Loops) > 0 {
@@ -376,10 +386,17 @@ func drawIndex(t *rapid.T, label string, maxShapes, maxEdges int) indexCase {
 			left -= k
 		}
 	}
-	if rapid.IntRange(0, 9).Draw(t, label+".empty") == 0 {
+	if rapid.IntRange(0, 5).Draw(t, label+".empty") == 0 {
 		// an edgeless shape shifts the shape ids
 		pos := rapid.IntRange(0, len(ic.Shapes)).Draw(t, label+".emptypos")
 		e := shapeCase{Type: "points", Loops: [][]gen.P{{}}}
+		switch rapid.IntRange(0, 5).Draw(t, label+".emptykind") {
+		case 0, 1:
+			// an edge-less region that contains everything (every target is in its interior)
+			e = shapeCase{Type: rapid.SampledFrom([]string{"fullpolygon", "fulllax"}).Draw(t, label+".fullkind"), Known: gen.FromPt(s2.OriginPoint()), KnownIn: true}
+		case 2:
+			e = shapeCase{Type: "emptypolygon", Known: gen.FromPt(s2.OriginPoint())}
+		}
 		ic.Shapes = append(ic.Shapes[:pos], append([]shapeCase{e}, ic.Shapes[pos:]...)...)
 	}
 	return ic
